@@ -745,7 +745,21 @@ def eq(E, a, b):
             if not E.branch(zint(la) == zint(lb)):
                 return False
         else:
-            raise Unsupported("== of two symbolic-length sequences in program code")
+            # both lengths symbolic: equality as a fresh boolean defined by (lengths equal and all elements equal); the negative
+            # direction is skolemised (a witness index), the positive one is a universal fact (also instantiated lazily by z3)
+            if sa.kind in BYTESLIKE and sb.kind in BYTESLIKE:
+                el = lambda q, i: zint(raw_byte(q.kind, q.get(i)))
+            else:
+                el = lambda q, i: zint(q.get(i))
+            if not E.branch(zint(la) == zint(lb)):
+                return False
+            if E.branch(z3.Bool(E.fresh("seq_eq"))):
+                k = z3.Int(E.fresh("k!eq"))
+                E.assume(z3.ForAll([k], z3.Implies(z3.And(k >= 0, k < zint(la)), el(sa, k) == el(sb, k))))
+                return True
+            w = E.fresh_int("k!neq")
+            E.assume(z3.And(w >= 0, w < zint(la), el(sa, w) != el(sb, w)))
+            return False
         conj = []
         for i in range(n):
             x, y = raw_byte(sa.kind, sa.get(i)) if sa.kind in BYTESLIKE and sb.kind in BYTESLIKE else sa.get(i), \
